@@ -8,6 +8,7 @@ import itertools
 from typing import Any, Dict, List, Optional, Tuple
 
 from ..core import control as C
+from ..core import dataflow as D
 from ..core.program import AnalysisError, AnchorError, ClassInfo, Program, norm, walk_local
 from . import provenance as PV
 from .sizeflow import (
@@ -409,3 +410,162 @@ def s4_forest_keys(ctx) -> None:
         ctx.ok("S4", "Rule.shifts() = strategy.shifts(comb_class, children) of the rule's own classes")
     else:
         ctx.violation("S4", sh.node, "AbstractRule.shifts must be strategy.shifts(self.comb_class, self.children)", construct="AbstractRule.shifts")
+
+
+# ------------------------------------------------------------------------ S0
+def s0_compositions(ctx) -> None:
+    """The summary engine S uses for utils.compositions (every yielded tuple t has arity k,
+    sum n, mins_i <= t_i <= maxs_i, hence t_i <= n - sum of the other minima) and its
+    completeness (every such tuple is yielded -- products count through it) are re-derived
+    from the body: emptiness guard, base case, range of the first part, recursion."""
+    from ..core import pattern as PT
+    P = ctx.P
+    fi = P.need_function("utils", "compositions")
+    f = fi.node
+    ctx.analysed(fi)
+    ps = fi.params()
+    if ps != ["n", "k", "min_sizes", "max_sizes"]:
+        raise AnalysisError(f"S0: utils.compositions has parameters {ps}; the summary was written for (n, k, min_sizes, max_sizes)")
+    # (a) nothing is yielded when the minima cannot fit
+    rets = [r for r in C.returns_of(f) if r.value is None]
+    guard_ok = False
+    for r in rets:
+        for e, pol in C.guards(f, r):
+            if pol and isinstance(e, ast.BoolOp) and isinstance(e.op, ast.Or):
+                terms = {norm(v) for v in e.values}
+                if "n < sum(min_sizes)" in terms or "sum(min_sizes) > n" in terms:
+                    guard_ok = True
+            if pol and norm(e) in ("n < sum(min_sizes)", "sum(min_sizes) > n"):
+                guard_ok = True
+    # ... and gives up *only* when no composition can exist: each disjunct of the early return is one of the
+    # known infeasibility conditions
+    accepted = ("n < 0", "k <= 0", "k < 1", "n < sum(min_sizes)", "sum(min_sizes) > n",
+                "all((_M_s is not None for _M_s in max_sizes)) and sum(max_sizes) < n",
+                "all((_M_s is not None for _M_s in max_sizes)) and sum(cast(_A_, max_sizes)) < n")
+    for r in rets:
+        if C.enclosing_loops(f, r) or ("k == 1", True) in C.guard_texts(f, r):
+            continue  # the return that ends the base case
+        for e, pol in C.guards(f, r):
+            if not pol:
+                continue
+            terms = e.values if isinstance(e, ast.BoolOp) and isinstance(e.op, ast.Or) else [e]
+            for t in terms:
+                if any(PT.match(PT.compile_pattern(a), t) is not None for a in accepted):
+                    continue
+                ctx.violation("S0", t, f"compositions returns nothing under `{norm(t)}`, which does not exclude that a composition exists "
+                              "(accepted: n < 0, k <= 0, n < sum(min_sizes), all maxima known and sum(max_sizes) < n): products silently lose terms")
+    if guard_ok:
+        ctx.ok("S0", "compositions yields nothing when n < sum(min_sizes): every yielded part is at most n minus the other minima")
+    else:
+        ctx.violation("S0", f, "compositions no longer returns early when n < sum(min_sizes); the bound t_i <= n - sum(other minima) engine S relies on is not guaranteed",
+                      construct="utils.compositions emptiness guard")
+    # (b) base case
+    base = [y for y in C.yields_of(f) if isinstance(y, ast.Yield) and y.value is not None and norm(y.value) == "(n,)"]
+    if base and all(("k == 1", True) in C.guard_texts(f, y) for y in base):
+        ctx.ok("S0", "base case k == 1 yields exactly (n,)")
+    else:
+        ctx.violation("S0", f, "the base case of compositions must yield (n,) exactly when k == 1", construct="utils.compositions base case")
+    # (c) the first part ranges over [min_sizes[0], M] with M = its maximum, or anything >= n - sum(min_sizes[1:]) when unbounded
+    loops = [l for l in walk_local(f) if isinstance(l, ast.For) and isinstance(l.iter, ast.Call) and norm(l.iter.func) == "range" and len(l.iter.args) == 2]
+    if len(loops) != 1:
+        raise AnalysisError("S0: cannot find the loop over the first part in utils.compositions")
+    loop = loops[0]
+    i = norm(loop.target)
+    lo, hi = loop.iter.args
+    okr = norm(lo) == "min_sizes[0]"
+    hi_src = hi
+    if isinstance(hi, ast.BinOp) and isinstance(hi.op, ast.Add) and norm(hi.right) == "1":
+        hi_src = hi.left
+    else:
+        okr = False
+    if isinstance(hi_src, ast.Name):
+        r = D.reaching_value(f, hi_src, hi_src.id)
+        hi_src = r[1] if r is not None else hi_src
+    m = PT.match(PT.compile_pattern("max_sizes[0] if max_sizes[0] is not None else _E_unb"), hi_src)
+    unb = m["_E_unb"] if m else None
+    ok_hi = unb in ("n", "n - sum(min_sizes[1:])")
+    if okr and ok_hi:
+        ctx.ok("S0", f"the first part ranges over min_sizes[0] .. (max_sizes[0] or {unb}): every feasible first part is tried, none below its minimum")
+    else:
+        ctx.violation("S0", loop, f"the first part of a composition must range over range(min_sizes[0], M + 1) with M = max_sizes[0], or n (at least "
+                      f"n - sum(min_sizes[1:])) when unbounded; found range({norm(lo)}, {norm(hi)}) with unbounded case `{unb}`: compositions are missed "
+                      "(products undercount) or parts fall below their minimum")
+    # (d) recursion on the rest, prefixed by the first part
+    rec = [c for c in walk_local(loop) if isinstance(c, ast.Call) and norm(c.func) == "compositions"]
+    okrec = len(rec) == 1 and [norm(a) for a in rec[0].args] == [f"n - {i}", "k - 1", "min_sizes[1:]", "max_sizes[1:]"]
+    pref = PT.find_all(loop, "map((_M_i,).__add__, _A_)", {"_M_i": i}) or PT.find_all(loop, "(_M_i,) + _M_rest", {"_M_i": i})
+    if okrec and pref:
+        ctx.ok("S0", "the rest is composed recursively from n - first part, with the remaining minima / maxima, and prefixed by the first part")
+    else:
+        ctx.violation("S0", loop, "compositions must recurse on (n - i, k - 1, min_sizes[1:], max_sizes[1:]) and prefix each result with (i,)")
+
+
+# ------------------------------------------------------------------------ V9 (C20)
+def v9_equation_forms(ctx, K: int = 4) -> None:
+    """Algebraic form of the equations of the four constructors, for classes without
+    statistics and every arity up to K / flipped index: evaluated by the same abstract
+    interpreter over Laurent polynomials in opaque function symbols f0, f1, ...:
+      union  F = f0 + f1 + ...        complement  F = f0 - f1 - ...   (f0 = original parent)
+      product F = f0 * f1 * ...       quotient    F = f0 / (f1 * ...)"""
+    from .sizeflow import Poly, StrV
+    P = ctx.P
+    n = 0
+    for fam in strategy_families(P):
+        for k in range(1, K + 1):
+            parent = ClassObj("parent", "P")
+            children = _make_children(k, list(range(k)))
+            strat = Inst(fam)
+            I = _fresh(P)
+            forms = []
+            cons = _call(I, P.find_method(fam, "constructor"), strat, [parent, children])
+            if isinstance(cons, Inst):
+                forms.append(("forward", None, cons))
+            for idx in range(k):
+                rc = _call(I, P.find_method(fam, "reverse_constructor"), strat, [Aff.const(idx), parent, children])
+                if isinstance(rc, Inst):
+                    forms.append(("reverse", idx, rc))
+            for direction, idx, c in forms:
+                ge = P.find_method(c.cls, "get_equation")
+                if ge is None:
+                    continue
+                ctx.analysed(ge)
+                lhs = Poly.sym("F")
+                fs = [Poly.sym(f"f{q}") for q in range(k)]
+                I.defects.clear()
+                res = _call(I, ge, c, [lhs, Tup(fs)])
+                shape = f"({c.cls.name}, k={k}" + (f", idx={idx})" if idx is not None else ")")
+                n += 1
+                if I.defects:
+                    for dn, msg in I.defects:
+                        ctx.violation("V9", dn, f"{shape}: {msg}")
+                    I.defects.clear()
+                    continue
+                if not (isinstance(res, Tup) and len(res.items) == 3 and isinstance(res.items[0], StrV) and isinstance(res.items[2], Poly) and res.items[1] == lhs):
+                    raise AnalysisError(f"V9: {c.cls.name}.get_equation did not evaluate to Eq(lhs, <polynomial>) for {shape}: {res!r}")
+                got = res.items[2]
+                cname = c.cls.name
+                if cname == "DisjointUnion":
+                    want = Poly()
+                    for x in fs:
+                        want = want + x
+                elif cname == "CartesianProduct":
+                    want = Poly.const(1)
+                    for x in fs:
+                        want = want * x
+                elif cname == "Complement":
+                    want = fs[0]
+                    for x in fs[1:]:
+                        want = want - x
+                elif cname == "Quotient":
+                    want = fs[0]
+                    for x in fs[1:]:
+                        want = want.div(x)
+                else:
+                    raise AnalysisError(f"V9: no expected equation form for constructor {cname}")
+                if got == want:
+                    ctx.ok("V9", f"{shape}: F = {got!r}")
+                else:
+                    ctx.violation("V9", ge.node, f"{shape}: get_equation gives F = {got!r}, the rule means F = {want!r} (f0 is the first child of the form; for reverse "
+                                  "forms the original parent)", construct=f"{cname}.get_equation form")
+    if n < 10:
+        ctx.floor("V9", 99)
